@@ -1,6 +1,7 @@
 import Operon.Lemmas.C12
 import Operon.Lemmas.C12Str
 import Operon.Lemmas.C12Scan
+import Operon.Lemmas.C12Reg
 /-!
 # C12 — template rendering follows the documented grammar; bound values stay data
 
@@ -582,6 +583,81 @@ theorem c12_str_strict_refines_spec (cfg : Cfg) (hst : cfg.strict = true) (ctx :
       obtain ⟨o, w'⟩ := p
       exact k2 sout hs hm o w' hk
 
+/-! ## A live instance: what a name means is what the caller registered LAST under it
+
+  "with the given bindings … includes": on a long-lived `Ribosome` templates are registered and registered again —
+  through the constructor's mapping, `register_template(t, name=…)`, `create_template`, direct assignment to the
+  public `templates` dict (`RegOp`, `regStep`: the key is `name or t.name`; the mapping and the assignment use the key
+  whatever the mRNA calls itself).  The three theorems say that nothing but the CURRENT registry enters a render:
+  the registry resolves a key to the last sequence written under it, a render reads the registry only by looking
+  names up, and therefore the required-variable check, the warnings, the strict error and the text of
+  `translate(key)` / `{{>key}}` after a re-registration are those of the NEW template.  (The code is tied to this by the
+  correspondence: the driver keeps each instance's registry with `regStep` and renders with `withReg`; a tree that
+  remembers anything about an earlier registration — e.g. a per-name cache of required variables — differs.) -/
+
+/-- REGISTRY.  After any history of registrations (any mixture of the four ways, any own names, nameless attempts
+    included) on an instance that started with the registry `ts`, a key resolves to the sequence of the last operation
+    that wrote under it; to what `ts` held when no operation did. -/
+theorem c12_registry_last_write_wins (ts : List (Str × Str)) (ops : List RegOp) (k : Str) :
+    lookup k (regRun ts ops) = match lastWrite k ops with
+      | some s => some s
+      | none => lookup k ts :=
+  lookup_regRun k ops ts
+
+/-- which key an operation writes under: `name=` wins over the mRNA's own name, the own name is used when `name=` is
+    absent, the mapping / assignment key is used as it is, and an operation without any name writes nothing -/
+theorem c12_registration_key (ts : List (Str × Str)) :
+    (∀ n own s, n ≠ [] → (RegOp.register n own s).key = some n) ∧
+    (∀ own s, own ≠ [] → (RegOp.register [] own s).key = some own) ∧
+    (∀ k own s, (RegOp.assign k own s).key = some k) ∧
+    (∀ n s, n ≠ [] → (RegOp.create n s).key = some n) ∧
+    (∀ s, regStep ts (RegOp.register [] [] s) = ts ∧ regStep ts (RegOp.create [] s) = ts) := by
+  refine ⟨?_, ?_, ?_, ?_, ?_⟩
+  · intro n own s h; simp [RegOp.key, h]
+  · intro own s h; simp [RegOp.key, h]
+  · intro k own s; rfl
+  · intro n s h; simp [RegOp.key, h]
+  · intro s; exact ⟨rfl, rfl⟩
+
+/-- NO MEMORY.  A render reads the registry only by looking names up: two registries that resolve every name to the
+    same sequence (however they came about — different histories, different slot order, other instances) give the
+    same result — text, warnings in order, error — for every template text, every registered name, every context,
+    strict or not, every include depth. -/
+theorem c12_render_reads_registry_by_lookup_only (cfg : Cfg) (r1 r2 : List (Str × Str))
+    (h : ∀ n, lookup n r1 = lookup n r2) (ctx : Ctx) (fuel : Nat) (s name : Str) :
+    translate (withReg cfg r1) ctx fuel s = translate (withReg cfg r2) ctx fuel s ∧
+    translateNamed (withReg cfg r1) ctx name = translateNamed (withReg cfg r2) ctx name :=
+  ⟨translate_reg_ext cfg r1 r2 h ctx fuel s, translateNamed_reg_ext cfg r1 r2 h ctx name⟩
+
+/-- HISTORIES.  Two histories of registrations whose last writes agree on every key render alike. -/
+theorem c12_histories_with_same_last_writes_render_alike (cfg : Cfg) (ts1 ts2 : List (Str × Str)) (ops1 ops2 : List RegOp)
+    (h : ∀ k, (match lastWrite k ops1 with | some s => some s | none => lookup k ts1)
+            = (match lastWrite k ops2 with | some s => some s | none => lookup k ts2))
+    (ctx : Ctx) (fuel : Nat) (s name : Str) :
+    translate (withReg cfg (regRun ts1 ops1)) ctx fuel s = translate (withReg cfg (regRun ts2 ops2)) ctx fuel s ∧
+    translateNamed (withReg cfg (regRun ts1 ops1)) ctx name = translateNamed (withReg cfg (regRun ts2 ops2)) ctx name :=
+  c12_render_reads_registry_by_lookup_only cfg _ _
+    (fun k => by rw [lookup_regRun, lookup_regRun]; exact h k) ctx fuel s name
+
+/-- RE-REGISTRATION.  Whatever happened on the instance before (`ops`: registrations under this key or others; the
+    renders in between do not change the registry), once `op` has written under the key `k` — in any of the four ways,
+    whatever the mRNA's own name — `translate(k)` IS the render of `op`'s sequence (its required-variable check, its
+    warnings, its strict error, its text), and `{{>k}}` splices the render of `op`'s sequence. -/
+theorem c12_reregistered_key_renders_new_template (cfg : Cfg) (ts : List (Str × Str)) (ops : List RegOp) (op : RegOp)
+    (k : Str) (hk : op.key = some k) (ctx : Ctx) :
+    translateNamed (withReg cfg (regRun ts (ops ++ [op]))) ctx k
+      = translate (withReg cfg (regRun ts (ops ++ [op]))) ctx defaultFuel op.seq ∧
+    ∀ recS : Str → Res, incRepl (withReg cfg (regRun ts (ops ++ [op]))) recS k
+      = (match recS op.seq with
+         | .ok (x, _) => .ok (x, [])
+         | .error e => .error e) := by
+  have hl : lookup k (regRun ts (ops ++ [op])) = some op.seq := by
+    rw [lookup_regRun, lastWrite_append, if_pos hk]
+  have e : (withReg cfg (regRun ts (ops ++ [op]))).templates = regRun ts (ops ++ [op]) := rfl
+  refine ⟨?_, fun recS => ?_⟩
+  · unfold translateNamed; rw [e, hl]
+  · unfold incRepl; rw [e, hl]; rfl
+
 /-! ## Non-vacuity: the hypotheses are satisfiable by non-trivial data -/
 
 /-- an environment with one filter `up` that answers `U`, marker `[?name]` -/
@@ -759,5 +835,30 @@ example :
 /-- string layer, same data, concrete check (a test, not a theorem): `{{>nope}}` renders as the marker -/
 example : (translate eCfg eCtx 3 (INCH ++ [110, 111, 112, 101] ++ RR)).toOption.map (·.1)
     = some [91, 63, 110, 111, 112, 101, 93] := by decide
+
+/-- hypotheses of `c12_reregistered_key_renders_new_template` / `c12_histories_with_same_last_writes_render_alike` on a
+    concrete history (the shape of the seeded change the check once missed): `alias` registered with
+    `register_template(mRNA("1:{{a}}{{q}}", name="alias_v1"), name="alias")`, `page = <{{>alias}}>` created, then
+    `register_template(mRNA("2:{{b}}", name="alias_v2"), name="alias")`: the last write under `alias` is the second
+    sequence, the one-step history `templates["alias"] = …; create page` has the same last writes, and a STRICT render
+    of `alias` and of `page` with only `b` bound succeeds with the new text (a test of the concrete instance) -/
+example :
+    let alias : Str := [97, 108, 105, 97, 115]
+    let page : Str := [112, 97, 103, 101]
+    let s1 : Str := [49, 58] ++ tagOf [97] ++ tagOf [113]
+    let s2 : Str := [50, 58] ++ tagOf [98]
+    let pg : Str := [60] ++ INCH ++ alias ++ RR ++ [62]
+    let ops : List RegOp := [.register alias (alias ++ [95, 118, 49]) s1, .create page pg]
+    let op : RegOp := .register alias (alias ++ [95, 118, 50]) s2
+    let cfg : Cfg := { eCfgS with strict := true }
+    let ctx : Ctx := [([98], ⟨[66], true, none⟩)]
+    op.key = some alias ∧ lastWrite alias (ops ++ [op]) = some s2 ∧ lastWrite page (ops ++ [op]) = some pg ∧
+    (∀ k, k = alias ∨ k = page → lastWrite k (ops ++ [op]) = lastWrite k [.assign alias [] s2, .create page pg]) ∧
+    (translateNamed (withReg cfg (regRun [] (ops ++ [op]))) ctx alias).toOption = some ([50, 58, 66], []) ∧
+    (translateNamed (withReg cfg (regRun [] (ops ++ [op]))) ctx page).toOption = some ([60, 50, 58, 66, 62], []) ∧
+    isValueErr (translateNamed (withReg cfg (regRun [] ops)) ctx alias) = true := by
+  refine ⟨by decide, by decide, by decide, ?_, by decide, by decide, by decide⟩
+  intro k hk
+  rcases hk with rfl | rfl <;> decide
 
 end Operon.Tmpl
